@@ -259,11 +259,19 @@ C17Conc(pr, late) ==
                                              \o "&skip-private-hops=false&reverse-dns=false", !.skip_private = FALSE] IN
     [base EXCEPT !.id = @ \o "/concurrent_plain/" \o ToString(late), !.label = @ \o "/concurrent_plain", !.run.start_delay_us = late]
     @@ [mix |-> <<plain>>]
+\* C05 (end-to-end samples): the target's ADDRESS answers, but not in a form that proves arrival (a time-exceeded carrying the target's
+\* own address: a NAT / load-balancer VIP): no destination hop, so every end-to-end sample is 0
+C05E2E(pr, e) ==
+    [C11Req(pr, CHOOSE b \in WrapBases : b.name = "mid", Orders1, 1, e) EXCEPT !.id = "C05/e2e/te_from_target/" \o pr[1] \o pr[2] \o "/" \o ToString(e),
+        !.label = "request/" \o pr[1] \o pr[2] \o "/e2e/no_proof_of_arrival",
+        !.path = PathOf([t \in 1..5 |-> IF t >= 4 THEN <<[form |-> "te", from |-> "TARGET", delay_us |-> 5000]>> ELSE <<[form |-> "te", from |-> R4(t), delay_us |-> 1000 * t]>>])]
+C05All(u) == { C05E2E(pr, e) : pr \in {<<"icmp", "", FALSE>>, <<"tcp", "syn", FALSE>>}, e \in {1, 3} }
+             \cup { C11Req(pr, CHOOSE b \in WrapBases : b.name = "mid", ord, 1, 3) : pr \in Protos, ord \in Orders }
 HistAll(u) == { C19Hist(n, w) : n \in {"dual46.test", "dual64.test"}, w \in BOOLEAN } \cup { C20Hist(m) : m \in {"prefer_sack", "sack"} }
               \cup { C16Hist(b) : b \in {1, 40, 300} } \cup { C17Conc(pr, l) : pr \in {<<"icmp", "", FALSE>>, <<"udp", "", FALSE>>}, l \in {0, 30000, 300000} }
 
 ---------------------------------------------------------------------------
-Cases == CASE Gen = "Hist" -> HistAll(0) [] Gen = "C15" -> C15All(0)
+Cases == CASE Gen = "C05" -> C05All(0) [] Gen = "Hist" -> HistAll(0) [] Gen = "C15" -> C15All(0)
            [] Gen = "C11" -> C11All(0)
            [] Gen = "C17" -> C17All(0)
            [] Gen = "C19" -> C19All(0)
